@@ -38,7 +38,16 @@ MANIFEST = dict(
           "that state again, with the copy-route and add steps in harness units whose scales are z3 reals; every step is held to the "
           "single-call obligations (z3 proves the values for ALL scales after the history, the cast log gives the requested dtype), and "
           "operands and results of earlier steps must still hold their numbers when the history ends. Which histories are run is "
-          "enumeration. Converted values as IEEE numbers are not claimed."),
+          "enumeration. (d) Two further discrete axes are walked through all of the above: dtype IDENTITY beyond kind and item size "
+          "(C long long / unsigned long long next to int64 / uint64, and every multi-byte dtype in the other byte order: 13 more dtype "
+          "names, through the threshold queries, the routes, the ufuncs, out= and the histories), and the UNIT FAMILY x unit system x "
+          "call form (identical unit, equal scale under another spelling, offset units, SI-prefixed and cross-system electromagnetic "
+          "units, E&M units that already are the system's own unit, compound, derived and dimensionless units; mks, cgs, imperial; "
+          "to/in_units/to_value/convert_to_units/to_equivalent/convert_to_equivalent with the target as a name or a Unit object, "
+          "in_base(system), in_base(), in_mks()/in_cgs(), convert_to_base(system), convert_to_mks()/convert_to_cgs(); mixed-unit ufuncs "
+          "over E&M, compound, derived, dimensionless and temperature-difference pairs) against exact rational factors written in the "
+          "harness; for the offset family the scales AND offsets of two harness temperature units are z3 reals and z3 proves the affine "
+          "image for all of them. Converted values as IEEE numbers are not claimed."),
     design="DESIGN.md section 4 C17",
     technique="SMT (bit-vectors + floating point) threshold queries built from the source AST; symbolic execution of the real Python "
               "code over typed arrays with z3-real unit scales; concrete enumeration of the dtype x route map and of two- and three-call "
@@ -68,7 +77,19 @@ EXPLANATION = (
     "complex stays complex, float of the item size, values (exact rationals on table units; v*s_from/s_to for ALL scales by z3), requested "
     "dtype from the cast log, RuntimeWarning at every step that converts the first integer its float cannot hold, inputs untouched, and "
     "operands/results of earlier steps unaltered at the end (values differ from step to step, six per array for every dtype, so a buffer "
-    "shared between steps shows)."
+    "shared between steps shows). (d) dtype identity: 'longlong'/'ulonglong' (own scalar type object, type character q/Q and type "
+    "number although kind and item size are those of int64/uint64) and '<dtype>-swapped' (non-native byte order) are further values of "
+    "the dtype axis of every case family; dtype obligations compare kind and item size (byte order is storage). Unit families: the "
+    "C17/units cases run every row of NAMED_ROWS / BASE_ROWS (source unit, target unit or unit system, exact rational factor and shift "
+    "written from the definitions of the units, not read from unyt) through one call form on array and scalar data of one dtype and "
+    "hold it to the obligations of the km<->m rows: succeeds (in-place routes may raise for 1-byte integers only), floating kind, float "
+    "of the item size, values v*factor+shift rounded to the narrowest float involved, target unit, RuntimeWarning when the data hold "
+    "2**p+1, input untouched, copy and in-place forms agree on dtype and values. The offset family additionally runs the copy forms on "
+    "two harness temperature units whose scales and offsets are z3 reals: z3 proves s_b*(r-o_b) == s_a*(v-o_a) for all of them. The "
+    "C17/binary-units cases do the same for mixed-unit add/subtract/less/maximum, including the temperature branch in which the FIRST "
+    "operand is rescaled (difference + point). The runner's history axis (warm variants) is effective for C17: a path is put into the "
+    "fresh-library state once, before the first function it runs, so a predecessor case's state is met by the case under test; "
+    "WARM_PARTNERS forces, for the unit-family cases, the same form and family on another dtype as predecessor."
 )
 BOUNDS = {
     "quick": "(a) 8 integer dtypes x routes {in_units, to, to_value, convert_to_units, in_base, convert_to_base}: every value of the "
@@ -83,7 +104,19 @@ BOUNDS = {
              "kind and size; three repeats), both orders; each remaining kind {in_units, to_value, to_equivalent, convert_to_base, "
              "convert_to_equivalent, floor_divide, spectral} before and after to and add x 8 pairs; quantities (to, convert_to_units, "
              "in_base on a unyt_quantity) before/after an array and twice; three steps over {float32, int64, float64, complex64, "
-             "complex128}^3 through to/to/to and a quarter of them through three mixed site patterns (about 1400 histories)",
+             "complex128}^3 through to/to/to and a quarter of them through three mixed site patterns (about 1400 histories); (d) the 13 "
+             "dtype-identity variants {longlong, ulonglong, int/uint16/32/64-swapped, float16/32/64-swapped, complex64/128-swapped} "
+             "through: all threshold queries (8 integer variants x 6 routes), all 6 routes, both equivalences, out= (5 kinds), ufuncs "
+             "{add, subtract, less, floor_divide} with themselves and after float64 (add: also before float64 and next to their canonical "
+             "twin), complex add/subtract, histories to->to with the canonical twin and complex64 in both orders and 4 identity pairs in "
+             "the 5x5 site product; unit families: named-target forms {to, in_units, to_value, convert_to_units, to_equivalent, "
+             "convert_to_equivalent} x 7 families (24 unit pairs; target as name and as Unit object; array and scalar) and base forms "
+             "{in_base(system), in_base(), in_<system>(), convert_to_base(system), convert_to_<system>()} x 8 families (36 unit/system "
+             "rows; mks, cgs, imperial) x 10 dtypes {int8, uint16, int32, int64, uint64, float16, float32, complex64, longlong, "
+             "int32-swapped}; 7 integer/float values per array incl. the dtype maximum and 2**p+1; offset family: two scales > 0 "
+             "(differing by > 0.1%) and two non-zero offsets as z3 reals for the copy forms; binary unit families: add x 8 unit pairs x "
+             "(11 real dtypes + 3 variants + 5 mixed pairs), less x 5 pairs x 6; warm variants: 90 sampled, up to half of them forced "
+             "unit-family pairs",
     "thorough": "(a) same; (b) same routes/equivalences/out= cases; mixed-unit ufuncs {add, subtract, maximum, minimum, remainder, hypot, "
                 "arctan2, floor_divide, less, greater_equal, equal, not_equal} x real dtype pairs {same dtype, float64/int64/float16 "
                 "first}, all 11x11 real pairs for add/subtract; {add, subtract, equal, not_equal} x complex64/128 paired with every dtype "
@@ -91,14 +124,26 @@ BOUNDS = {
                 "convert_to_units, convert_to_base, add, out=, to_equivalent} x the 31 colliding dtype pairs, and x all 13x13 ordered "
                 "dtype pairs where both sites are the same or one is to (19 site pairs); the remaining kinds before and after to and add "
                 "x the 31 colliding pairs; quantities for 5 kinds; three steps over 8 dtypes cubed x 4 site patterns (about 7 200 "
-                "histories; the full 7x7x169 product was cut for wall time)",
+                "histories; the full 7x7x169 product was cut for wall time); (d) as quick, with all 26 dtype names for the unit-family cases, "
+                "ufuncs x the variants in both positions, to->to histories of every variant with all 13 canonical dtypes, 9 identity pairs "
+                "in the 7x7 site product, binary unit families {add, subtract, less, maximum} x all real dtypes and variants; all forced "
+                "warm pairs",
 }
 OUTSIDE = ("the converted values as IEEE numbers (double rounding through astype + multiply) - only 'not truncated: within 8 ulp of the "
            "narrowest float the data passes through' is checked on concrete runs and exact real arithmetic (1e-6 band, widened to 8 ulp "
            "of that float) on symbolic ones (A1); overflow to inf counts as rounding, including the in-place route's first step that "
            "casts the integer itself to the float of its item size (uint16 65535 m -> inf km in place, 65.56 km by the copy route; "
            "NumPy warns); the result WIDTH of mixed-unit arithmetic beyond 'floating point and not narrower than the converted operand' "
-           "(NumPy promotes int32 + float32 to float64); longdouble/clongdouble, bool, object and structured dtypes; in-place routes, "
+           "(NumPy promotes int32 + float32 to float64); longdouble/clongdouble, bool, object and structured dtypes; dtype identities that "
+           "do not exist on this platform (on LP64 Linux C long long is the only integer type that shares kind and item size with another "
+           "one; where C long is 32 bit the pair is int32/long instead and is not walked); unit rows whose factor is not a normal number "
+           "of the narrowest float involved (1 km = 1e5 cm, 1 A = 3e9 statA in float16: the in-place routes multiply by an infinite "
+           "factor, 0*inf = nan) are held to the dtype obligations only; E&M units, identical units and table offsets carry no continuous "
+           "unit parameter a solver could range over (the E&M tables are keyed by unit name): those families are enumeration on typed "
+           "boundary data; which UNIT unyt's base routes pick for prefixed E&M units in another system (kG -> 'kT' in cgs) and the "
+           "statV/V factor are not C17's subject and those rows are not in the tables; binary ufuncs whose units are equal in scale "
+           "under different spellings (J + N*m, delta_degC + K) involve no conversion and stay integer - not walked; ordering "
+           "comparisons across temperature scales; in-place routes, "
            "out=, equivalence routes and complex operands with symbolic scales (enumerated on table units instead); multiple-output "
            "ufuncs with out=; dask arrays; which of the two warnings' texts is shown (any RuntimeWarning counts); histories longer than three "
            "calls, histories through calls other than the listed kinds (pickling, copying, registry edits - see C11-C13), histories across "
@@ -125,6 +170,39 @@ ALL_DTYPES = INT_DTYPES + FLOAT_DTYPES + COMPLEX_DTYPES
 FMT = {2: (5, 11), 4: (8, 24), 8: (11, 53)}  # float item size -> (exponent bits, significand bits incl. hidden)
 WARN_LABEL = "RuntimeWarning when the float cannot hold the integer"
 UNYT_WARNING_TEXT = "Overflow encountered while converting"
+
+# ----------------------------------------------------------------------------------------------- dtype identity axis
+# A dtype is more than kind + item size: the same width exists as several C types with their own scalar type object, type
+# character and type number (C long long next to C long on LP64 platforms, where NumPy's int64 is C long), and in the other
+# byte order. The property quantifies over "all integer, unsigned, float and complex dtypes", so these are walked as further
+# values of the dtype axis under their own names (np.dtype would print longlong as 'int64').
+SWAP = "-swapped"
+VARIANT_INT = ["longlong", "ulonglong"] + [d + SWAP for d in INT_DTYPES if np.dtype(d).itemsize > 1]
+VARIANT_FLOAT = [d + SWAP for d in FLOAT_DTYPES]
+VARIANT_COMPLEX = [d + SWAP for d in COMPLEX_DTYPES]
+VARIANT_DTYPES = VARIANT_INT + VARIANT_FLOAT + VARIANT_COMPLEX
+EVERY_DTYPE = ALL_DTYPES + VARIANT_DTYPES
+
+
+def DT(name):
+    """harness dtype name (or dtype) -> np.dtype; '<name>-swapped' is the non-native byte order"""
+    if isinstance(name, str) and name.endswith(SWAP):
+        return np.dtype(name[:-len(SWAP)]).newbyteorder("S")
+    return np.dtype(name)
+
+
+def dname(dt):
+    """np.dtype (or harness name) -> harness dtype name, keeping the C type and the byte order apart"""
+    dt = DT(dt)
+    base = {"q": "longlong", "Q": "ulonglong"}.get(dt.char) if np.dtype("q") is not np.dtype("int64") else None
+    base = base or str(dt.newbyteorder("="))
+    return base + (SWAP if dt.byteorder not in "=|" and dt != dt.newbyteorder("=") else "")
+
+
+def same_type(a, b):
+    """same kind and item size (byte order is storage, not part of the property)"""
+    return DT(a).newbyteorder("=") == DT(b).newbyteorder("=")
+
 
 
 # =============================================================================================== (a) source model
@@ -224,7 +302,7 @@ class WarnModel:
 
     def __init__(self, model, site, dtype):
         self.model, self.site = model, site
-        self.dt = np.dtype(dtype)
+        self.dt = DT(dtype)
         self.bits = 8 * self.dt.itemsize
         self.signed = self.dt.kind == "i"
 
@@ -446,7 +524,7 @@ def data_of(r):
 
 
 def signed_value(u, dt):
-    dt = np.dtype(dt)
+    dt = DT(dt)
     bits = 8 * dt.itemsize
     u &= (1 << bits) - 1
     return u - (1 << bits) if dt.kind == "i" and u >= 1 << (bits - 1) else u
@@ -468,7 +546,7 @@ def probes(dt, large_table):
 
 def make_threshold_case(route, dt):
     """(a): for all integers v of dtype dt: the target float of this route cannot hold v  =>  a RuntimeWarning is due"""
-    dtype = np.dtype(dt)
+    dtype = DT(dt)
     bits, signed = 8 * dtype.itemsize, dtype.kind == "i"
 
     # a conversion of factor exactly 1, so that the only change a value can suffer is the cast to the float type
@@ -543,7 +621,7 @@ def make_threshold_case(route, dt):
 
 def make_encoding_case(dt, fs):
     """the FP round-trip definition of 'the float holds v exactly' equals the independent bit-vector one, for every v"""
-    dtype = np.dtype(dt)
+    dtype = DT(dt)
     bits, signed = 8 * dtype.itemsize, dtype.kind == "i"
 
     def h(ctx):
@@ -574,16 +652,16 @@ def make_encoding_case(dt, fs):
 
 def want_float(dt):
     """the property's target type: float of the input's item size (at least 16 bit); floats and complex keep their dtype"""
-    dt = np.dtype(dt)
+    dt = DT(dt)
     if dt.kind in "ui":
         return np.dtype("f" + str(max(2, dt.itemsize)))
-    return dt
+    return dt.newbyteorder("=")
 
 
 def real_float(dt):
     """the real floating type underlying a float/complex dtype"""
-    dt = np.dtype(dt)
-    return np.dtype("f" + str(dt.itemsize // 2)) if dt.kind == "c" else dt
+    dt = DT(dt)
+    return np.dtype("f" + str(dt.itemsize // 2)) if dt.kind == "c" else dt.newbyteorder("=")
 
 
 def narrowest(*dts):
@@ -611,7 +689,7 @@ def int_values(dt, large_table):
 
 
 def route_values(dt, large_table):
-    dt = np.dtype(dt)
+    dt = DT(dt)
     if dt.kind in "ui":
         return int_values(dt, large_table)
     if dt.kind == "f":
@@ -683,8 +761,11 @@ def py(x):
 
 def typed(ctx, values, dt, unit, reg=None, scalar=False):
     unyt = ctx.mods["unyt"]
+    dt = DT(dt)
     if scalar:
-        return unyt.unyt_quantity(np.dtype(dt).type(values[0]), unit, registry=reg)
+        # a NumPy scalar has no byte order of its own: the other byte order is handed over as a 0-d array
+        v0 = np.array(values[0], dtype=dt) if dt != dt.newbyteorder("=") else dt.type(values[0])
+        return unyt.unyt_quantity(v0, unit, registry=reg)
     return unyt.unyt_array(np.array(values, dtype=dt), unit, registry=reg)
 
 
@@ -729,10 +810,10 @@ def mul(e, f):
 def check_converted(ctx, r, values, factor, dt, want, copy, **info):
     """dtype and value obligations on one converted result (typed run)"""
     d = data_of(r)
-    kind_ok = d.dtype.kind == ("c" if np.dtype(dt).kind == "c" else "f")
+    kind_ok = d.dtype.kind == ("c" if DT(dt).kind == "c" else "f")
     who = "copy route" if copy else "in-place route"
     ctx.require(f"{who}: floating point, complex stays complex", kind_ok, dtype=str(d.dtype), **info)
-    ctx.require(f"{who}: float of the input's item size", d.dtype == want, dtype=str(d.dtype), want=str(want), **info)
+    ctx.require(f"{who}: float of the input's item size", same_type(d.dtype, want), dtype=str(d.dtype), want=str(want), **info)
     if kind_ok:
         fdt = narrowest(dt, d.dtype)
         got = [py(x) for x in d.ravel()]
@@ -742,7 +823,7 @@ def check_converted(ctx, r, values, factor, dt, want, copy, **info):
 
 
 def make_route_case(route, dt):
-    dtype = np.dtype(dt)
+    dtype = DT(dt)
     want = want_float(dtype)
     inplace = route in INPLACE_ROUTES
     base = route in ("in_base", "convert_to_base")
@@ -781,7 +862,7 @@ def make_route_case(route, dt):
                     rc = run(do_route, q, PARTNER[route], dst, "mks")
                     if rc.ok:
                         dc = data_of(rc.value)
-                        ctx.require("copy and in-place routes agree on dtype", dc.dtype == got_dt, copy=str(dc.dtype), inplace=str(got_dt), **info)
+                        ctx.require("copy and in-place routes agree on dtype", same_type(dc.dtype, got_dt), copy=str(dc.dtype), inplace=str(got_dt), **info)
                         fdt = narrowest(dtype, dc.dtype, got_dt)
                         a, b = [py(x) for x in dc.ravel()], [py(x) for x in data_of(r.value).ravel()]
                         same = len(a) == len(b) and all(same_num(x, y, fdt) for x, y in zip(a, b))
@@ -814,7 +895,7 @@ def make_route_case(route, dt):
                     ctx.require("symbolic scales: requested float type has the input's item size", bool(req) and req[-1] == want,
                                 requested=[str(x) for x in req], variant=shape)
                 else:
-                    ctx.require("symbolic scales: requested float type has the input's item size", d.dtype == want, dtype=str(d.dtype), variant=shape)
+                    ctx.require("symbolic scales: requested float type has the input's item size", same_type(d.dtype, want), dtype=str(d.dtype), variant=shape)
 
     return Case(f"C17/route/{route}/{dt}", h, bounds="symbolic: unit scales (copy routes); concrete: dtype, boundary values, table units")
 
@@ -826,7 +907,7 @@ EQUIV = {"thermal": ("keV", "K"), "spectral": ("km", "Hz")}
 
 
 def make_equiv_case(dt):
-    dtype = np.dtype(dt)
+    dtype = DT(dt)
     want = want_float(dtype)
 
     def h(ctx):
@@ -846,14 +927,14 @@ def make_equiv_case(dt):
                 ctx.observe(f"{name} {who} dtype", str(d.dtype))
                 ctx.require(f"{who}: floating point, complex stays complex", d.dtype.kind == ("c" if dtype.kind == "c" else "f"),
                             dtype=str(d.dtype), equivalence=name)
-                ctx.require(f"{who}: float of the input's item size", d.dtype == want, dtype=str(d.dtype), want=str(want), equivalence=name)
+                ctx.require(f"{who}: float of the input's item size", same_type(d.dtype, want), dtype=str(d.dtype), want=str(want), equivalence=name)
                 if real_float(d.dtype).itemsize >= 4 and d.dtype.kind in "fc":
                     exp = [float(KEV_TO_K * v) if name == "thermal" else 299792458.0 / (1000.0 * v) for v in (1, 2, 3)]
                     got = [complex(py(x)).real for x in d.ravel()]
                     ctx.require(f"{who}: values converted, not truncated", all(abs(g - e) <= 1e-4 * abs(e) for g, e in zip(got, exp)),
                                 got=got, equivalence=name)
             if rc.ok and ri.ok:
-                ctx.require("copy and in-place routes agree on dtype", data_of(rc.value).dtype == data_of(c).dtype,
+                ctx.require("copy and in-place routes agree on dtype", same_type(data_of(rc.value).dtype, data_of(c).dtype),
                             copy=str(data_of(rc.value).dtype), inplace=str(data_of(c).dtype), equivalence=name)
 
     return Case(f"C17/equivalence/{dt}", h, bounds="concrete: keV->K (thermal), km->Hz (spectral), values 1,2,3")
@@ -868,7 +949,7 @@ YS = {"wide": [300, 700, 1300, 90], "byte": [30, 70, 110, 90], "complex": [300 +
 
 
 def second_values(dt):
-    dt = np.dtype(dt)
+    dt = DT(dt)
     if dt.kind == "c":
         return YS["complex"]
     return YS["byte"] if dt.itemsize == 1 else YS["wide"]
@@ -908,7 +989,7 @@ def oracle(op, x, y):
 
 
 def make_binary_case(op, dt0, dt1):
-    d0, d1 = np.dtype(dt0), np.dtype(dt1)
+    d0, d1 = DT(dt0), DT(dt1)
     cplx = d0.kind == "c" or d1.kind == "c"
     conv_dt = want_float(d1)
     K = Fraction(1, 1000)  # m -> km
@@ -991,10 +1072,314 @@ def make_binary_case(op, dt0, dt1):
     return Case(f"C17/binary/{op}/{dt0}+{dt1}", h, bounds="symbolic: unit scales (add/subtract, real dtypes); concrete: dtypes, values")
 
 
+# ----------------------------------------------------------------------------------------------- unit family x unit system x call form
+#
+# Which code a conversion runs through depends on the UNITS, not only on the dtype: identical unit (factor 1), another spelling
+# of the same scale, an offset (temperatures), an SI prefix, an electromagnetic unit inside one system / across mks and cgs /
+# already the system's own unit (separate E&M branch with its own exits), a compound or dimensionless unit, and - for the base
+# routes - the unit system and the way it is named (in_base(system), in_base() with the registry's default, in_mks()/in_cgs(),
+# convert_to_base(system), convert_to_mks()/convert_to_cgs()). Every row below is held to the obligations of the km<->m rows.
+# The factors are written here from the definitions (exact rationals), not read from unyt:
+#   1 A = c/10 statA, 1 C = c/10 statC with c = 29 979 245 800 cm/s;  1 T = 10**4 G;  degC = K - 273.15;  degF = 9/5 degC + 32;
+#   1 J = 10**7 erg;  1 N = 10**5 dyn;  1 ft = 0.3048 m;  1 lb = 0.45359237 kg;  1 R = 5/9 K
+
+EMF = Fraction(29979245800, 10)
+T0 = Fraction(27315, 100)
+FT = Fraction(3048, 10000)
+LB = Fraction(45359237, 10 ** 8)
+
+# family -> [(source unit, target unit, factor, shift)]: value_in_target = value * factor + shift
+NAMED_ROWS = {
+    "same": [("km", "km", 1, 0), ("A", "A", 1, 0), ("degC", "degC", 1, 0), ("dimensionless", "dimensionless", 1, 0)],
+    "equal-scale": [("J", "N*m", 1, 0), ("Hz", "1/s", 1, 0), ("delta_degC", "K", 1, 0)],
+    "offset": [("degC", "K", 1, T0), ("K", "degC", 1, -T0), ("degF", "degC", Fraction(5, 9), Fraction(-160, 9)),
+               ("degC", "degF", Fraction(9, 5), 32)],
+    "em-prefixed": [("mA", "A", Fraction(1, 1000), 0), ("A", "mA", 1000, 0), ("kG", "G", 1000, 0)],
+    "em-cross": [("A", "statA", EMF, 0), ("statA", "A", 1 / EMF, 0), ("T", "G", 10 ** 4, 0), ("G", "T", Fraction(1, 10 ** 4), 0),
+                 ("C", "statC", EMF, 0), ("mA", "statA", EMF / 1000, 0)],
+    "compound": [("km/s", "m/s", 1000, 0), ("km**2", "m**2", 10 ** 6, 0), ("J", "erg", 10 ** 7, 0), ("g/cm**3", "kg/m**3", 1000, 0)],
+    "dimensionless": [("percent", "dimensionless", Fraction(1, 100), 0), ("dimensionless", "percent", 100, 0)],
+}
+# family -> [(source unit, unit system, unit of the result as unyt prints it, factor, shift)]
+BASE_ROWS = {
+    "plain": [("km", "mks", "m", 1000, 0), ("km", "cgs", "cm", 10 ** 5, 0), ("g", "mks", "kg", Fraction(1, 1000), 0),
+              ("kg", "cgs", "g", 1000, 0)],
+    "already-base": [("m", "mks", "m", 1, 0), ("cm", "cgs", "cm", 1, 0), ("kg", "mks", "kg", 1, 0), ("s", "cgs", "s", 1, 0),
+                     ("K", "mks", "K", 1, 0), ("dimensionless", "mks", "dimensionless", 1, 0)],
+    "em-base": [("A", "mks", "A", 1, 0), ("T", "mks", "T", 1, 0), ("C", "mks", "C", 1, 0), ("statA", "cgs", "statA", 1, 0),
+                ("G", "cgs", "G", 1, 0), ("statC", "cgs", "statC", 1, 0)],
+    "em-prefixed": [("mA", "mks", "A", Fraction(1, 1000), 0), ("mT", "mks", "T", Fraction(1, 1000), 0), ("kA", "mks", "A", 1000, 0)],
+    "em-cross": [("A", "cgs", "statA", EMF, 0), ("statA", "mks", "A", 1 / EMF, 0), ("T", "cgs", "G", 10 ** 4, 0),
+                 ("G", "mks", "T", Fraction(1, 10 ** 4), 0), ("C", "cgs", "statC", EMF, 0)],
+    "offset": [("degC", "mks", "K", 1, T0), ("degC", "cgs", "K", 1, T0), ("degF", "mks", "K", Fraction(5, 9), Fraction(5, 9) * Fraction(45967, 100))],
+    "derived": [("J", "cgs", "erg", 10 ** 7, 0), ("erg", "mks", "J", Fraction(1, 10 ** 7), 0), ("N", "cgs", "dyn", 10 ** 5, 0),
+                ("Hz", "cgs", "1/s", 1, 0), ("km/s", "cgs", "cm/s", 10 ** 5, 0), ("percent", "mks", "dimensionless", Fraction(1, 100), 0)],
+    "imperial": [("km", "imperial", "ft", 1000 / FT, 0), ("kg", "imperial", "lb", 1 / LB, 0), ("K", "imperial", "R", Fraction(9, 5), 0),
+                 ("degC", "imperial", "R", Fraction(9, 5), Fraction(9, 5) * T0), ("A", "imperial", "A", 1, 0)],
+}
+NAMED_FORMS = ("to", "in_units", "to_value", "convert_to_units", "to_equivalent", "convert_to_equivalent")
+UNITS_DTYPES_QUICK = ["int8", "uint16", "int32", "int64", "uint64", "float16", "float32", "complex64", "longlong", "int32-swapped"]
+BASE_FORMS = ("in_base", "in_base-default", "in_system", "convert_to_base", "convert_to_system")
+FORM_PARTNER = {"convert_to_units": "in_units", "convert_to_base": "in_base", "convert_to_system": "in_system",
+                "convert_to_equivalent": "to_equivalent"}
+TARGET_FORMS = ("name", "unit object")
+
+
+def do_form(q, form, target, system):
+    """apply one call form; in-place forms work on a copy that is returned"""
+    if form in NAMED_FORMS:
+        return do_kind(q, form, target)  # the equivalence forms name an equivalence the units do not need (same dimensions)
+    if form == "in_base":
+        return q.in_base(system)
+    if form == "in_base-default":
+        return q.in_base()  # the registry's own unit system (mks for the default registry)
+    if form == "in_system":
+        return getattr(q, "in_" + system)()
+    c = q.copy()
+    if form == "convert_to_base":
+        c.convert_to_base(system)
+    elif form == "convert_to_system":
+        getattr(c, "convert_to_" + system)()
+    else:
+        raise KeyError(form)
+    return c
+
+
+def form_applies(form, system):
+    if form == "in_base-default":
+        return system == "mks"
+    if form in ("in_system", "convert_to_system"):
+        return system in ("mks", "cgs")
+    return True
+
+
+def first_unheld(dtype):
+    """the first positive integer the float of the item size cannot hold (2**p + 1), if the dtype has it"""
+    dtype = DT(dtype)
+    if dtype.kind not in "ui":
+        return None
+    v = 2 ** FMT[max(2, dtype.itemsize)][1] + 1
+    return v if v <= np.iinfo(dtype).max else None
+
+
+def family_values(dtype, scalar):
+    dtype = DT(dtype)
+    if scalar:
+        return [{"u": 125, "i": 125, "f": 1500.0, "c": 500 - 1500j}[dtype.kind]]
+    if dtype.kind in "ui":
+        out = [0, 1, 3, 50, 125 if dtype.kind == "u" else -7, int(np.iinfo(dtype).max)]
+        big = first_unheld(dtype)
+        return out + ([big] if big else [])
+    if dtype.kind == "f":
+        return [0.0, 1.0, -1.5, 0.25, 500.0, 1500.0]
+    return [0j, 1 + 2j, -0.5 + 0.25j, 500 - 1500j, 3j, 125 + 0j]
+
+
+def affine(v, factor, shift):
+    """exact image of a held python number: v*factor + shift (the shift is real)"""
+    e = mul(exact(v), Fraction(factor))
+    return (e[0] + shift, e[1]) if isinstance(e, tuple) else e + shift
+
+
+def factor_fits(factor, fdt):
+    """the conversion factor itself is a normal number of float type fdt. Where it is not (1 km = 1e5 cm, 1 A = 3e9 statA in
+    float16), the in-place routes multiply by an infinite or zero factor and 0*inf is nan: IEEE overflow, outside the claim (A1);
+    such rows are held to the dtype obligations only"""
+    fi = np.finfo(fdt)
+    return Fraction(float(fi.tiny)) <= abs(Fraction(factor)) <= Fraction(float(fi.max))
+
+
+def affine_ok(got, held, factor, shift, fdt):
+    """got are the held values times factor plus shift, rounded to float type fdt; with a shift the rounding is relative to the
+    two terms of the sum (the library multiplies, then subtracts its offset)"""
+    bad = []
+    if not factor_fits(factor, fdt):
+        return bad
+    for v, g in zip(held, got):
+        # the library's offset is itself a difference of two absolute-zero offsets (5/9*459.67 - 273.15): rounding is relative to those
+        band = float(abs(Fraction(shift)) + abs(complex(v)) * float(Fraction(factor)) + 460 * Fraction(factor) + 274) if shift else 0.0
+        if not vclose(g, affine(v, factor, Fraction(shift)), fdt, band=band, source=v):
+            bad.append((v, g))
+    return bad
+
+
+def make_units_case(form, family, dt):
+    dtype = DT(dt)
+    want = want_float(dtype)
+    named = form in NAMED_FORMS
+    inplace = form in FORM_PARTNER
+    rows = (NAMED_ROWS if named else BASE_ROWS)[family]
+    who = "in-place route" if inplace else "copy route"
+    one_byte_int = dtype.itemsize == 1 and dtype.kind in "ui"
+
+    def h(ctx):
+        unyt = ctx.mods["unyt"]
+        for row in rows:
+            if named:
+                src, dst, factor, shift = row
+                system, unit_name = None, None
+            else:
+                src, system, unit_name, factor, shift = row
+                dst = None
+                if not form_applies(form, system):
+                    continue
+            for scalar in (False, True):
+                values = family_values(dtype, scalar)
+                held = held_of(values, dtype)
+                for tform in (TARGET_FORMS if named and not scalar else TARGET_FORMS[:1]):
+                    info = dict(variant=f"{'scalar' if scalar else 'array'} {src}->{dst or system}" + (" (target given as Unit)" if tform != "name" else ""))
+                    target = unyt.Unit(dst) if tform != "name" else dst
+                    q = typed(ctx, values, dtype, src, scalar=scalar)
+                    r = run(do_form, q, form, target, system)
+                    ctx.observe(info["variant"], r.outcome if r.ok else "raise:" + type(r.value).__name__)
+                    if not r.ok:
+                        ctx.require("raises only when no float of the item size exists", inplace and one_byte_int, exc=repr(r.value)[:200], **info)
+                        continue
+                    if form == "to_value" and scalar:
+                        ctx.require("to_value of a quantity is a python number", isinstance(r.value, (float, complex)), type=type(r.value).__name__, **info)
+                        ctx.require("copy route: values converted, not truncated", not affine_ok([r.value], held, factor, shift, narrowest(dtype)), **info)
+                        continue
+                    d = data_of(r.value)
+                    kind_ok = d.dtype.kind == ("c" if dtype.kind == "c" else "f")
+                    ctx.require(f"{who}: floating point, complex stays complex", kind_ok, dtype=str(d.dtype), **info)
+                    ctx.require(f"{who}: float of the input's item size", same_type(d.dtype, want), dtype=str(d.dtype), want=str(want), **info)
+                    if kind_ok:
+                        got = [py(x) for x in d.ravel()]
+                        bad = affine_ok(got, held, factor, shift, narrowest(dtype, d.dtype))
+                        ctx.require(f"{who}: values converted, not truncated", not bad and len(got) == len(held), bad=bad[:3], **info)
+                    if form != "to_value":
+                        name = str(unyt.Unit(dst)) if named else unit_name
+                        ctx.require("result carries the target unit", str(r.value.units) == name, unit=str(r.value.units), want=name, **info)
+                    big = first_unheld(dtype)
+                    if big is not None and not scalar:
+                        ctx.require(WARN_LABEL, r.runtime_warned, warnings=[m for _, m in r.warns if "deprecated" not in m][:3], **info)
+                    if not inplace:
+                        ctx.require("input untouched by the copy route", q.dtype == dtype and np.array_equal(
+                            np.asarray(q.d).ravel(), np.array(values, dtype=dtype)) and str(q.units) == str(unyt.Unit(src)), **info)
+                    else:
+                        rc = run(do_form, q, FORM_PARTNER[form], target, system)
+                        if rc.ok:
+                            dc = data_of(rc.value)
+                            ctx.require("copy and in-place routes agree on dtype", same_type(dc.dtype, d.dtype), copy=str(dc.dtype), inplace=str(d.dtype), **info)
+                            fdt = narrowest(dtype, dc.dtype, d.dtype)
+                            a, b = [py(x) for x in dc.ravel()], [py(x) for x in d.ravel()]
+                            ctx.require("copy and in-place routes agree on values", len(a) == len(b) and (
+                                not factor_fits(factor, fdt) or all(same_num(x, y, fdt) for x, y in zip(a, b))), copy=a[:4], inplace=b[:4], **info)
+                        else:
+                            ctx.require("copy route works where the in-place route works", False, exc=repr(rc.value)[:200], **info)
+        # ---- offsets and scales as z3 reals: two harness temperature units, copy routes, real typed payload
+        if family != "offset" or inplace or dtype.kind == "c":
+            return
+        base = not named
+        if base and form != "in_base":
+            return
+        D = unyt.dimensions
+        reg = ctx.registry([])
+        sa, sb = ctx.real("xta_s", pos=True), ctx.real("xtb_s", pos=True)
+        oa, ob = ctx.real("xta_o", nonzero=True), ctx.real("xtb_o", nonzero=True)
+        ctx.add_row(reg, "xta", D.temperature, sa, oa)
+        ctx.add_row(reg, "xtb", D.temperature, sb, ob)
+        ctx.assume(Or(sa > sb * 1.001, sb > sa * 1.001))
+        values = family_values(dtype, False)[:5]
+        held = held_of(values, dtype)
+        q = typed(ctx, values, dtype, "xta", reg)
+        with CastLog() as log:
+            r = run(do_form, q, form, "xtb", "mks")
+        if not r.ok:
+            ctx.require("symbolic scales and offsets: conversion succeeds", False, exc=repr(r.value)[:200])
+            return
+        d = data_of(r.value)
+        got = elements(d)
+        if symbolic_result(r.value):
+            # SI form of the oracle, SI(x) = s*(x - o): the result read in its unit is the input read in its unit (mks base: K)
+            t = sym_tol(dtype)
+            if base:
+                ok = And(len(got) == len(held), *[close(g, sa * (v - oa), extra=(abs(sa * v) + abs(sa * oa)) * float(t), tol=t) for g, v in zip(got, held)])
+            else:
+                ok = And(len(got) == len(held), *[close(sb * (g - ob), sa * (v - oa), extra=(abs(sa * v) + abs(sa * oa) + abs(sb * ob)) * float(t), tol=t)
+                                                   for g, v in zip(got, held)])
+            req = log.requested(("asarray",))
+            dt_ok = base or (bool(req) and req[-1] == want)
+            seen = [str(x) for x in req]
+        else:
+            fdt = narrowest(dtype, d.dtype) if d.dtype.kind == "f" else np.dtype("f8")
+            fsa, fsb, foa, fob = Fraction(sa), Fraction(sb), Fraction(oa), Fraction(ob)
+            k = fsa if base else fsa / fsb
+            sh = -fsa * foa if base else fob - fsa * foa / fsb
+            ok = len(got) == len(held) and all(
+                vclose(g, Fraction(v) * k + sh, fdt, band=float(abs(Fraction(v) * k) + abs(fsa * foa / (1 if base else fsb)) + (0 if base else abs(fob))), source=v)
+                for g, v in zip(got, held))
+            dt_ok = same_type(d.dtype, want)
+            seen = str(d.dtype)
+        ctx.require("symbolic scales and offsets: values are the affine image for all scales and offsets", ok)
+        ctx.require("symbolic scales and offsets: requested float type has the input's item size", dt_ok, seen=seen)
+
+    return Case(f"C17/units/{form}/{family}/{dt}", h,
+                bounds="enumerated: unit rows of the family, dtype, call form, boundary values; symbolic (offset family, copy routes): two scales, two offsets")
+
+
+# mixed-unit binary ufuncs over unit families: (first unit, second unit, factor of the second operand's values into the first
+# unit's scale, unit of the result, which operand is rescaled). Temperature differences added to a temperature point take the
+# separate branch in which the FIRST operand is converted.
+BINARY_UNITS = {
+    "em-prefixed": ("A", "mA", Fraction(1, 1000), "A"),
+    "em-cgs": ("G", "kG", 1000, "G"),
+    "compound": ("km/s", "m/s", Fraction(1, 1000), "km/s"),
+    "dimensionless": ("percent", "dimensionless", 100, "%"),
+    "derived": ("J", "erg", Fraction(1, 10 ** 7), "J"),
+    "difference+difference": ("delta_degC", "delta_degF", Fraction(5, 9), "Δ°C"),
+    "point+difference": ("degC", "delta_degF", Fraction(5, 9), "°C"),
+    "difference+point": ("delta_degF", "degC", None, "°C"),  # x dF + y degC = y + 5/9 x degC: the first operand is rescaled
+}
+
+
+def make_binary_units_case(op, family, dt0, dt1):
+    d0, d1 = DT(dt0), DT(dt1)
+    u0, u1, K, unit = BINARY_UNITS[family]
+    first_rescaled = K is None
+
+    def h(ctx):
+        uf = getattr(np, op)
+        xs, ys = [1, 2, 3, 5], second_values(d1)
+        a, b = typed(ctx, xs, d0, u0), typed(ctx, ys, d1, u1)
+        hx, hy = held_of(xs, d0), held_of(ys, d1)
+        r = run(uf, a, b)
+        ctx.observe("outcome", r.outcome if r.ok else "raise:" + type(r.value).__name__)
+        conv = d0 if first_rescaled else d1
+        if not r.ok:
+            # (with a 1-byte second operand unyt refuses before it looks which operand is rescaled: a 1-byte integer is involved)
+            ctx.require("raises only when no float of the item size exists", d1.itemsize == 1, exc=repr(r.value)[:200])
+            return
+        d = data_of(r.value)
+        ctx.observe("dtype", str(d.dtype))
+        got = [py(x) for x in d.ravel()]
+        if first_rescaled:
+            pairs = [(Fraction(x) * Fraction(5, 9), Fraction(y)) for x, y in zip(hx, hy)]
+        else:
+            pairs = [(Fraction(x), Fraction(y) * K) for x, y in zip(hx, hy)]
+        if op in COMPARE:
+            ctx.require("comparison result is boolean", d.dtype.kind == "b", dtype=str(d.dtype))
+            ctx.require("comparison decided on converted values", got == [oracle(op, x, y) for x, y in pairs], got=got)
+            return
+        ctx.require("result is floating point, not integer", d.dtype.kind == "f", dtype=str(d.dtype))
+        ctx.require("result not narrower than the converted operand", d.dtype.kind == "f" and d.dtype.itemsize >= want_float(conv).itemsize,
+                    dtype=str(d.dtype), converted=str(want_float(conv)))
+        ctx.require("result carries the first operand's unit", str(r.value.units) == unit, unit=str(r.value.units), want=unit)
+        if d.dtype.kind == "f":
+            fdt = narrowest(d0, d1, d.dtype)
+            exp = [oracle(op, x, y) for x, y in pairs]
+            ok = len(got) == len(pairs) and all(vclose(g, e, fdt, band=float(abs(x) + abs(y))) for g, e, (x, y) in zip(got, exp, pairs))
+            ctx.require("values combined on converted operands, not truncated", ok, got=got, want=[float(e) for e in exp])
+        ctx.require("operands untouched", a.dtype == d0 and b.dtype == d1 and np.array_equal(a.d, np.array(xs, dtype=d0))
+                    and np.array_equal(b.d, np.array(ys, dtype=d1)))
+
+    return Case(f"C17/binary-units/{op}/{family}/{dname(d0)}+{dname(d1)}", h, bounds="concrete: table units, dtypes, values")
+
+
 # ----------------------------------------------------------------------------------------------- out= promotion (concrete)
 
 def make_out_case(kind, odt, plain_out=False):
-    od = np.dtype(odt)
+    od = DT(odt)
     want = want_float(od)
 
     def h(ctx):
@@ -1027,7 +1412,7 @@ def make_out_case(kind, odt, plain_out=False):
             return
         do, dr = data_of(o), data_of(r.value)
         ctx.observe("dtype", [str(do.dtype), str(dr.dtype)])
-        ctx.require("out buffer: float of its item size, complex stays complex", do.dtype == want, dtype=str(do.dtype), want=str(want))
+        ctx.require("out buffer: float of its item size, complex stays complex", same_type(do.dtype, want), dtype=str(do.dtype), want=str(want))
         ctx.require("returned value has the dtype of the out buffer", dr.dtype == do.dtype, out=str(do.dtype), ret=str(dr.dtype))
         fdt = narrowest(want, "int32") if kind == "mixed-int" else real_float(want)  # int32 operand: converted in float32
         for who, dd in (("out buffer", do), ("returned value", dr)):
@@ -1127,7 +1512,11 @@ def from_fresh_library(case):
     fn = case.fn
 
     def h(ctx):
-        fresh_library(ctx)
+        # once per path: a warm variant (symx/warm.py) runs another case first in the same path; the case under test must then
+        # meet what that case left behind in the library, so only the first function of a path starts from the fresh state
+        if not getattr(ctx, "_c17_fresh_done", False):
+            fresh_library(ctx)
+            ctx._c17_fresh_done = True
         return fn(ctx)
     case.fn = h
     return case
@@ -1163,7 +1552,7 @@ def history_values(dt, large_table, i=0):
     """six values per dtype (the same count for every dtype, different numbers at every step i, so that a buffer shared between
     steps shows), with fractions/imaginary parts that truncation would lose; for integers the first value the float of the
     item size cannot hold (if the dtype has it), so that the warning is due at that step"""
-    dt = np.dtype(dt)
+    dt = DT(dt)
     if dt.kind in "ui":
         L = large_table.get(max(2, dt.itemsize))
         big = L if isinstance(L, int) and L <= np.iinfo(dt).max else 7
@@ -1205,7 +1594,7 @@ class Ledger:
 def history_step_table(ctx, led, kind, dt, model, where, i=0):
     """one step on table units (concrete typed data): m -> km (cm -> m for the base routes, km -> Hz for the spectral
     equivalence), compared with exact rational arithmetic rounded to the narrowest float involved"""
-    dtype = np.dtype(dt)
+    dtype = DT(dt)
     want = want_float(dtype)
     info = dict(step=where, kind=kind, dtype=str(dtype))
     kind, scalar = split_kind(kind)
@@ -1263,7 +1652,7 @@ def history_step_table(ctx, led, kind, dt, model, where, i=0):
             return
         do, dr = data_of(o), data_of(r.value)
         led.add(L_KIND, do.dtype.kind == ("c" if dtype.kind == "c" else "f"), got=str(do.dtype), **info)
-        led.add(L_SIZE, do.dtype == want and dr.dtype == do.dtype, out=str(do.dtype), returned=str(dr.dtype), want=str(want), **info)
+        led.add(L_SIZE, same_type(do.dtype, want) and dr.dtype == do.dtype, out=str(do.dtype), returned=str(dr.dtype), want=str(want), **info)
         if do.dtype.kind in "fc":
             fdt = real_float(want)
             ok = all(near(complex(py(g)).real, e, fdt) and complex(py(g)).imag == 0 for dd in (do, dr) for g, e in zip(dd.ravel(), exp))
@@ -1303,7 +1692,7 @@ def history_step_table(ctx, led, kind, dt, model, where, i=0):
     d = data_of(r.value)
     kind_ok = d.dtype.kind == ("c" if dtype.kind == "c" else "f")
     led.add(L_KIND, kind_ok, got=str(d.dtype), **info)
-    led.add(L_SIZE, d.dtype == want, got=str(d.dtype), want=str(want), **info)
+    led.add(L_SIZE, same_type(d.dtype, want), got=str(d.dtype), want=str(want), **info)
     if kind_ok:
         fdt = narrowest(dtype, d.dtype)
         got = [py(x) for x in d.ravel()]
@@ -1341,7 +1730,7 @@ def do_kind(q, kind, target):
 def history_step_symbolic(ctx, led, kind, dt, model, where, reg, sa, sb, i=0):
     """one step in harness units xa -> xb whose scales are z3 reals (copy routes and add on real typed data): the converted
     values are proved for ALL scales, the float type the code asks for is read from the cast log"""
-    dtype = np.dtype(dt)
+    dtype = DT(dt)
     want = want_float(dtype)
     info = dict(step=where, kind=kind, dtype=str(dtype))
     kind, scalar = split_kind(kind)
@@ -1393,18 +1782,18 @@ def history_step_symbolic(ctx, led, kind, dt, model, where, reg, sa, sb, i=0):
         led.add(L_SVAL, len(got) == len(held) and all(vclose(g, Fraction(v) * fx, fdt, source=v) for g, v in zip(got, held)),
                 got=[py(g) for g in got][:4], **info)
         if not base:
-            led.add(L_SREQ, d.dtype == want, got=str(d.dtype), **info)
+            led.add(L_SREQ, same_type(d.dtype, want), got=str(d.dtype), **info)
     led.add(L_KEPT, q.dtype == dtype and np.array_equal(np.asarray(q.d).ravel(), np.array(values, dtype=dtype)), **info)
 
 
 def can_be_symbolic(kind, dt):
-    return split_kind(kind)[0] in H_SYMBOLIC and np.dtype(dt).kind in "uif"
+    return split_kind(kind)[0] in H_SYMBOLIC and DT(dt).kind in "uif"
 
 
 def make_history_case(steps):
     """steps: tuple of (kind, dtype). Run 1: every step on table units. Run 2 (if any step can carry symbolic scales): the same
     history again from the state of a freshly imported library, with those steps in harness units of symbolic scale."""
-    steps = tuple((k, str(np.dtype(d))) for k, d in steps)
+    steps = tuple((k, dname(d)) for k, d in steps)
     text = " -> ".join(f"{k}({d})" for k, d in steps)
 
     def h(ctx):
@@ -1431,6 +1820,11 @@ SAME_KIND_OTHER_SIZE = [("float16", "float64"), ("float32", "float64"), ("float1
                         ("int16", "int64"), ("int32", "int64"), ("uint8", "uint32")]
 OTHER_KIND_OTHER_SIZE = [("float32", "complex64"), ("float64", "complex128"), ("int8", "float64"), ("int32", "float16")]
 REPEATS = [("int64", "int64"), ("complex64", "complex64"), ("float32", "float32")]
+# same kind and item size, another dtype identity (C long long next to C long; the other byte order), and such a dtype next to a
+# dtype of the same item size with another target
+SAME_WIDTH_OTHER_IDENTITY = [("int64", "longlong"), ("uint64", "ulonglong"), ("int32", "int32-swapped"), ("float32", "float32-swapped"),
+                             ("complex64", "complex64-swapped"), ("longlong", "complex64"), ("float64", "int64-swapped"),
+                             ("ulonglong", "float64-swapped"), ("int16-swapped", "float16")]
 
 
 def both_orders(pairs):
@@ -1443,12 +1837,13 @@ def history_cases(tier):
     seen, out = set(), []
 
     def add(*steps):
-        key = tuple((k, str(np.dtype(d))) for k, d in steps)
+        key = tuple((k, dname(d)) for k, d in steps)
         if key not in seen:
             seen.add(key)
             out.append(make_history_case(key))
 
     collide = both_orders(SAME_SIZE_OTHER_TARGET + SAME_KIND_OTHER_SIZE + OTHER_KIND_OTHER_SIZE) + REPEATS
+    collide += both_orders(SAME_WIDTH_OTHER_IDENTITY if not quick else SAME_WIDTH_OTHER_IDENTITY[:1] + SAME_WIDTH_OTHER_IDENTITY[3:6])
     sites = ("to", "in_base", "convert_to_units", "add", "out") if quick else \
         ("to", "in_base", "convert_to_units", "convert_to_base", "add", "out", "to_equivalent")
     others = [k for k in H_KINDS if k not in sites]
@@ -1456,6 +1851,11 @@ def history_cases(tier):
     for a in ALL_DTYPES:
         for b in ALL_DTYPES:
             add(("to", a), ("to", b))
+    for v in VARIANT_DTYPES:
+        canonical = str(DT(v).newbyteorder("="))
+        for b in ([canonical, "complex64"] if quick else ALL_DTYPES):
+            add(("to", v), ("to", b))
+            add(("to", b), ("to", v))
     # two steps: every pair of sites x the colliding dtype pairs; thorough: every dtype pair where the two sites are the same or
     # one of them is the copy route
     every = [(a, b) for a in ALL_DTYPES for b in ALL_DTYPES]
@@ -1497,6 +1897,25 @@ def history_cases(tier):
     return out
 
 
+def WARM_PARTNERS(cases):
+    """forced (case, predecessor) pairs of the runner's history axis for the unit-family cases: the same call form and unit family
+    first on data of another dtype (same item size with another target / another width / another dtype identity), so that
+    anything the library remembers per unit, per unit pair or per unit system - and not per dtype - meets a second dtype.
+    (A C17 path puts the library into its fresh state once, before the first function it runs: the predecessor's state stays.)"""
+    ids = {c.id for c in cases}
+    out = {}
+    for cid in sorted(ids):
+        parts = cid.split("/")
+        if len(parts) != 5 or parts[1] != "units":
+            continue
+        for dt, before in (("int32", "int64"), ("longlong", "complex64"), ("complex64", "float64"), ("float32", "uint64")):
+            if parts[4] == dt:
+                w = "/".join(parts[:4] + [before])
+                if w in ids:
+                    out.setdefault(cid, []).append(w)
+    return out
+
+
 def coverage_extra(results, tier):
     """how much of the verdict is the solver's and how much is enumeration (stated, not hidden)"""
     smt = [r for r in results if r["id"].startswith(("C17/threshold/", "C17/encoding/"))]
@@ -1529,17 +1948,32 @@ def cases(tier, mods):
         return [_broken(str(e))]
     out = []
     for route in ROUTES:
-        for dt in INT_DTYPES:
+        for dt in INT_DTYPES + VARIANT_INT:
             out.append(make_threshold_case(route, dt))
     for dt in INT_DTYPES:
         for fs in (2, 4, 8):
             out.append(make_encoding_case(dt, fs))
     for route in ROUTES:
-        for dt in ALL_DTYPES:
+        for dt in EVERY_DTYPE:
             out.append(make_route_case(route, dt))
-    for dt in ALL_DTYPES:
+    for dt in EVERY_DTYPE:
         out.append(make_equiv_case(dt))
+    # unit family x unit system x call form (see NAMED_ROWS / BASE_ROWS)
+    unit_dts = UNITS_DTYPES_QUICK if tier == "quick" else EVERY_DTYPE
+    for form in NAMED_FORMS:
+        for family in NAMED_ROWS:
+            if "equivalent" in form and family == "em-cross":
+                continue  # mks and cgs E&M units differ in dimensions: no same-dimension hand-over to take
+            for dt in unit_dts:
+                out.append(make_units_case(form, family, dt))
+    for form in BASE_FORMS:
+        for family in BASE_ROWS:
+            if not any(form_applies(form, row[1]) for row in BASE_ROWS[family]):
+                continue
+            for dt in unit_dts:
+                out.append(make_units_case(form, family, dt))
     real_dts = INT_DTYPES + FLOAT_DTYPES
+    var_real = VARIANT_INT + VARIANT_FLOAT
     if tier == "quick":
         ops = ["add", "subtract", "less", "floor_divide"]
         cops = ["add", "subtract"]
@@ -1553,11 +1987,30 @@ def cases(tier, mods):
             pairs[op] = [(a, b) for a in real_dts for b in real_dts]
         out_kinds = ["same", "mixed", "unary", "mixed-int"]
     for op in ops:
-        for a, b in pairs[op]:
+        # the dtype variants (C long long, other byte order): with themselves and in both positions next to float64
+        more = [(d, d) for d in var_real] + [("float64", d) for d in var_real]
+        if tier != "quick" or op == "add":
+            more += [(d, "float64") for d in var_real] + [("longlong", "int64"), ("int64", "longlong"), ("int32-swapped", "int32"), ("float32", "float32-swapped")]
+        for a, b in pairs[op] + more:
             out.append(make_binary_case(op, a, b))
+    for op in (["add", "less"] if tier == "quick" else ["add", "subtract", "less", "maximum"]):
+        for family in BINARY_UNITS:
+            if op == "subtract" and "point" in family:
+                continue  # unyt refuses to subtract across temperature scales with an offset
+            if op in ("less", "maximum") and ("point" in family or "difference" in family):
+                continue  # ordering across temperature scales is not part of this property
+            bdts = real_dts + (var_real if tier != "quick" else ["longlong", "int32-swapped", "float32-swapped"])
+            mixed = [("float64", "int32"), ("int16", "int64"), ("int64", "int16"), ("float32", "uint8"), ("uint8", "float32")]
+            if tier == "quick" and op != "add":
+                bdts, mixed = ["int16", "int64", "float32", "longlong"], mixed[:2]
+            for d in bdts:
+                out.append(make_binary_units_case(op, family, d, d))
+            for a, b in mixed:
+                out.append(make_binary_units_case(op, family, a, b))
     for op in cops:
         cp = [(c, c) for c in COMPLEX_DTYPES] + [("float64", c) for c in COMPLEX_DTYPES] + [(c, "float64") for c in COMPLEX_DTYPES] \
             + [("complex128", "int32"), ("int32", "complex64")]
+        cp += [(c, c) for c in VARIANT_COMPLEX] + [("float64", c) for c in VARIANT_COMPLEX] + [("complex64", "longlong"), ("longlong", "complex128")]
         if tier != "quick":
             cp += [(c, d) for c in COMPLEX_DTYPES for d in real_dts if d not in ("float64", "int32")]
             cp += [(d, c) for c in COMPLEX_DTYPES for d in real_dts if d not in ("float64", "int32")]
@@ -1565,9 +2018,9 @@ def cases(tier, mods):
         for a, b in cp:
             out.append(make_binary_case(op, a, b))
     for kind in out_kinds:
-        for dt in ALL_DTYPES:
+        for dt in EVERY_DTYPE:
             out.append(make_out_case(kind, dt))
-    for dt in ALL_DTYPES:
+    for dt in EVERY_DTYPE:
         out.append(make_out_case("mixed", dt, plain_out=True))
     out += history_cases(tier)
     return [from_fresh_library(c) for c in out]
